@@ -50,7 +50,7 @@ RULE = ('histories of patch/unpatch/set-priority/GC/client add+remove/port data/
         'every branch of GenericPatchPort / GenericUnPatchPort (same universe, loop refusal, multi-port refusal, veto '
         'on a fresh port, veto on a patched port + GC + use, refused un-patch + GC + use, null port), of '
         'SetPriorityStatic (199/200/201/255, uint8 wrap), of RestorePortSettings (restore vetoed / refused by policy), '
-        'unregister+stop+GC+re-register, and RegisterForDmx(UNREGISTER) on a missing universe; state compared after '
+        'unregister+stop+GC+re-register, RegisterForDmx(UNREGISTER) on a missing universe, the input and output port with the same port id (ids are per device and direction, as on real devices) to one universe under each policy, a universe going idle twice between collections; state compared after '
         'every op; non-trivial = at least one successful patch and one later state-changing op; distinct = distinct '
         'model output trace')
 ASSUMPTIONS = ['PreSetUniverse(old, new) is a function of the port, the number of the new universe (or NULL) and the '
@@ -143,7 +143,7 @@ def rand_op(rng, devs, ports, pool):
 
 def directed(rng, devs, ports, pool):
     """prefixes aimed at the branches of GenericPatchPort"""
-    kind = rng.randrange(15)
+    kind = rng.randrange(17)
     np_ = len(ports)
     ops = []
     if kind == 0:
@@ -228,6 +228,27 @@ def directed(rng, devs, ports, pool):
         a, b = rng.sample(pool, 2)
         ops = ['P.%d.%d' % (k, a), 'P.%d.%d' % (p, a), 'P.%d.%d' % (p, b), 'P.%d.%d' % (p, a), 'G',
                'U.%d' % k, 'P.%d.%d' % (p, a), 'G']
+    elif kind in (15, 16):
+        # the input and the output port with the SAME port id of one device to one universe, under
+        # each looping/multi-port policy (and a different-id pair next to it)
+        d = rng.randrange(len(devs))
+        devs[d] = rng.randrange(4)
+        ports[0][0] = d; ports[0][1] = True
+        ports[1][0] = d; ports[1][1] = False
+        ins = [i for i in range(np_) if ports[i][0] == d and ports[i][1]]
+        outs = [i for i in range(np_) if ports[i][0] == d and not ports[i][1]]
+        k = rng.randrange(min(len(ins), len(outs)))
+        a, b = ins[k], outs[k]
+        for i in (a, b):
+            ports[i][2] = (rng.choice([1, 2]) if ports[i][1] else rng.choice([0, 2]))
+            ports[i][3] = []; ports[i][4] = '-'
+        u, w2 = rng.sample(pool, 2)
+        first, second = (a, b) if kind == 15 else (b, a)
+        ops = ['P.%d.%d' % (first, u), 'P.%d.%d' % (second, u), 'G', 'P.%d.%d' % (second, w2), 'P.%d.%d' % (second, u),
+               'U.%d' % first, 'P.%d.%d' % (second, u), 'P.%d.%d' % (first, u), 'G']
+        other = [i for i in ins + outs if i not in (a, b)]
+        if other:
+            ops.insert(2, 'P.%d.%d' % (rng.choice(other), u))
     elif kind == 12:
         # a universe goes idle twice between two collections: patch, unpatch, patch, unpatch, GC
         p = rng.randrange(np_)
